@@ -181,7 +181,7 @@ class C06(Prop):
                 host = server[0] if isinstance(server, tuple) else None
                 naddr = len(resolver.get(host, ())) if host else 0
                 nfailed = len(rec.fired)
-                if naddr > nfailed and rec.outcome == "raise" and not ign:
+                if naddr > nfailed and rec.outcome == "raise" and isinstance(rec.exc, OSError):
                     out.append(viol("address-fallback-not-used", rec, disc="stale-error",
                                     addresses=naddr, failed=nfailed, exc=type(rec.exc).__name__))
                 elif naddr > nfailed and ign and rec.method in gen.READS:
